@@ -33,6 +33,7 @@ import (
 	"github.com/elastos/Elastos.ELA/blockchain"
 	"github.com/elastos/Elastos.ELA/common"
 	"github.com/elastos/Elastos.ELA/common/config"
+	elalog "github.com/elastos/Elastos.ELA/common/log"
 	"github.com/elastos/Elastos.ELA/core/checkpoint"
 	"github.com/elastos/Elastos.ELA/core/contract"
 	"github.com/elastos/Elastos.ELA/core/contract/program"
@@ -597,6 +598,10 @@ func (u *universe) build(kind int) *gtx {
 		outs = []*common2.Output{{AssetID: common.Uint256{1}, Value: 10, ProgramHash: common.Uint168{9}, Type: common2.OTNone, Payload: &outputpayload.DefaultOutput{}}}
 	}
 	attrs := []*common2.Attribute{{Usage: common2.Nonce, Data: rng.Bytes([]int{4, 4, 4, 40, 120, 300}[rng.Intn(6)])}}
+	if ty >= common2.TxType(common2.TxVersion09) {
+		// on the wire a leading byte >= 0x09 is a version: such types only exist as version 9 txs
+		ver = common2.TxVersion09
+	}
 	real := functions.CreateTransaction(ver, ty, pv, pl, attrs, ins, outs, 0, progs)
 	g.ty = ty
 	g.size = real.GetSize()
@@ -673,7 +678,7 @@ func redecode(tx interfaces.Transaction) interfaces.Transaction {
 		}
 		cp = t
 	})
-	if panicked || cp == nil || cp.Hash() != tx.Hash() || cp.GetSize() != tx.GetSize() {
+	if panicked || cp == nil || cp.TxType() != tx.TxType() || cp.Version() != tx.Version() || cp.Hash() != tx.Hash() || cp.GetSize() != tx.GetSize() {
 		return nil
 	}
 	cp.SetFee(tx.Fee())
@@ -1179,6 +1184,9 @@ func checkCoverage(tbl *slotTable, st *lib.Stats) {
 func main() {
 	run := lib.ParseArgs()
 	elaenv.InitLog(run.Out)
+	if os.Getenv("C34_LOG") != "" {
+		elalog.NewDefault(filepath.Join(run.Out, "elalog"), 0, 0, 0)
+	}
 	dplog.Init(filepath.Join(run.Out, "dposlog"), 255, 0, 0)
 	rng := lib.NewRng(run.Seed)
 	st := lib.NewStats("C34", "histories of 25-60 pool operations (submit via AppendToTxPool/MaybeAcceptTransaction, RemoveTransaction, block connected = CleanSubmittedTransactions then CheckAndCleanAllTransactions, chain invalidation + CheckAndCleanAllTransactions) over 14-40 transactions of 26 kinds that collide on outpoints and on every slot kind; pool limit 700..20M bytes; hook histories run the eviction loop; real histories use signed transfers and real blocks on the regnet fixture. One evaluation = one operation with a full index snapshot; nontrivial = pool non-empty afterwards or a rejection/cleanup happened; distinct by (op kind, result, fee list content, slot count, budget)")
